@@ -192,8 +192,8 @@ def run_diff(ctx, cases, impl_exe, model_exe):
             continue
         if a == "SKIP":
             continue
-        exp, _, rest = b.partition(" ")
-        implmodel = rest[len("IMPLMODEL="):] if rest.startswith("IMPLMODEL=") else None
+        exp, sep, rest = b.partition(" IMPLMODEL=")
+        implmodel = rest if sep else None
         if a == exp:
             ctx.cell(cell + (":ERR" if a.startswith("ERR") else ":ok"))
             if implmodel is not None:
@@ -435,6 +435,196 @@ def run_exchange(ctx, impl_exe):
             ctx.cell("exch:fresh:ok")
 
 
+# --------------------------------------------------------------------------- DER strictness of the wire objects
+def der_len(n):
+    if n < 128: return bytes([n])
+    b = n.to_bytes((n.bit_length() + 7) // 8, "big")
+    return bytes([0x80 | len(b)]) + b
+
+
+def der_parse(b, off=0):
+    """one TLV at b[off:]: (tag, header_len, content_len)"""
+    tag = b[off]; l0 = b[off + 1]
+    if l0 < 128: return tag, 2, l0
+    k = l0 & 127
+    return tag, 2 + k, int.from_bytes(b[off + 2:off + 2 + k], "big")
+
+
+def der_children(b):
+    tag, h, n = der_parse(b)
+    out, off = [], h
+    while off < h + n:
+        t, hh, nn = der_parse(b, off)
+        out.append((off, t, hh, nn)); off += hh + nn
+    return out
+
+
+def der_mutations(r, enc, full_trunc=False):
+    """[(class, bytes)] structural mutations of a valid SEQUENCE encoding; every one must be refused as a whole"""
+    enc = bytes(enc); out = []
+    tag, h, n = der_parse(enc)
+    body = enc[h:]
+    nonmin = lambda L: [bytes([0x81, L])] if L < 128 else ([bytes([0x82, 0, L])] if L < 256 else [bytes([0x83, 0]) + L.to_bytes(2, "big")])
+    # outside trailing bytes
+    for k in (1, 2, 3):
+        out.append(("append%d" % k, enc + r.bytes(k)))
+    out.append(("append-00", enc + b"\x00"))
+    # inside trailing byte (outer length adjusted)
+    out.append(("inner-trailing", bytes([tag]) + der_len(n + 1) + body + b"\x00"))
+    out.append(("inner-trailing", bytes([tag]) + der_len(n + 2) + body + b"\x05\x00"))
+    # outer length one short / one long without data
+    out.append(("outer-len-1", bytes([tag]) + der_len(n - 1) + body))
+    out.append(("outer-len+1", bytes([tag]) + der_len(n + 1) + body))
+    # non-minimal / indefinite outer length, wrong outer tag
+    for nm in nonmin(n) + [bytes([0x84, 0, 0]) + n.to_bytes(2, "big")]:
+        out.append(("nonminimal-len:outer", bytes([tag]) + nm + body))
+    out.append(("indefinite-len", bytes([tag, 0x80]) + body + b"\x00\x00"))
+    for t in (0x31, 0x10, 0x70, 0x04):
+        out.append(("wrong-tag:outer", bytes([t]) + enc[1:]))
+    # per child
+    for (off, t, hh, nn) in der_children(enc):
+        child = enc[off:off + hh + nn]; content = child[hh:]
+        def rebuilt(newchild):
+            nb = enc[h:off] + newchild + enc[off + hh + nn:]
+            return bytes([tag]) + der_len(len(nb)) + nb
+        for nm in nonmin(nn):
+            out.append(("nonminimal-len:child", rebuilt(bytes([t]) + nm + content)))
+        for wt in {0x02: (0x04, 0x03), 0x03: (0x04, 0x23), 0x04: (0x03, 0x24, 0x0c)}.get(t, (t ^ 1,)):
+            out.append(("wrong-tag:child", rebuilt(bytes([wt]) + child[1:])))
+        if t == 0x02:
+            out.append(("int-leading-00", rebuilt(bytes([t]) + der_len(nn + 1) + b"\x00" + content)))
+            out.append(("int-leading-0000", rebuilt(bytes([t]) + der_len(nn + 2) + b"\x00\x00" + content)))
+            if content[0] & 0x80 == 0 and nn > 1:
+                pass
+        if t == 0x03:
+            for u in (1, 7, 8):
+                out.append(("bitstring-unused", rebuilt(bytes([t]) + child[1:hh] + bytes([u]) + content[1:])))
+            out.append(("bitstring-short", rebuilt(bytes([t]) + der_len(nn - 1) + content[:-1])))
+        out.append(("child-dropped", rebuilt(b"")))
+        out.append(("child-duplicated", rebuilt(child + child)))
+    cuts = range(0, len(enc)) if full_trunc else sorted(set([0, 1, 2, 3, len(enc) // 2, len(enc) - 2, len(enc) - 1]))
+    for c in cuts:
+        out.append(("truncated", enc[:c]))
+    return out
+
+
+def run_der(ctx, impl_exe, model_exe):
+    import time
+    r = ctx.rng
+    thorough = ctx.tier == "thorough"
+    t0 = time.time()
+    hx = lambda b: b.hex() if b else "-"
+    viol = lambda key, text, op, a, exp: ctx.violation(key, text + ": op `%s` -> %s" % (op[:160], a[:90]),
+                                                      {"kind": "failing-input", "op": op, "impl": a, "expected": exp}, True)
+    ent = lambda: le32(rnd(r, N)) + r.bytes(32).hex()
+    # ---- phase 1: genuine objects
+    ksig, idsig, msg = KS_STD, b"Alice", b"message digest"
+    kenc, idenc = KE_STD, b"Bob"
+    pts = [r.bytes(20), r.bytes(200)]
+    kinds = ["smsk", "smpk", "skey", "emsk", "empk", "ekey"]
+    kvals = [KS_STD, N - 1, (rnd(r, N) | (1 << 255)) % N or 5, rnd(r, 2**200)]
+    p1 = ["sign %s %s %s %s -" % (h64(ksig), hx(idsig), hx(msg), ent()) for _ in range(2)]
+    p1 += ["enc %s %s %s %s -" % (h64(kenc), hx(idenc), hx(pt), ent()) for pt in pts]
+    keyobjs = [(kind, k) for kind in kinds for k in kvals]
+    p1 += ["keyenc %s %s %s" % (kind, h64(k), hx(b"Carol")) for (kind, k) in keyobjs]
+    infos = [("smsk", kvals[2]), ("skey", kvals[2]), ("emsk", kvals[1]), ("ekey", kvals[2]), ("smsk", KS_STD), ("emsk", kvals[3])]
+    p1 += ["keyinfo %s %s %s P@ssw0rd %s" % (kind, h64(k), hx(b"Carol"), r.bytes(64).hex()) for (kind, k) in infos]
+    o1, _ = core.run_lines(impl_exe, p1, shards=8)
+    ctx.cov["evaluations"] += len(p1)
+    sigs = [bytes.fromhex(x.split(" ")[0][4:]) for x in o1[0:2] if x.startswith("sig=")]
+    cts = [bytes.fromhex(x.split(" ")[0][3:]) for x in o1[2:4] if x.startswith("ct=")]
+    if len(sigs) != 2 or len(cts) != 2:
+        viol("der:setup", "could not produce genuine objects", p1[0], str(o1[:4])[:200], "sig=/ct="); return
+    keyder_enc = o1[4:4 + len(keyobjs)]
+    info_enc = o1[4 + len(keyobjs):]
+    # ---- phase 2a: differential of the decoders alone (model = Sm9Der.v), all mutations + sweeps
+    diff = []
+    def addm(op, base, full):
+        diff.append(("%s %s" % (op, hx(base)), "der:%s:genuine" % op[3:]))
+        for cls, mb in der_mutations(r, base, full_trunc=full):
+            diff.append(("%s %s" % (op, hx(mb)), "der:%s:%s" % (op[3:], cls)))
+    addm("dersig", sigs[0], True); addm("dersig", sigs[1], False)
+    addm("derct", cts[0], True); addm("derct", cts[1], False)
+    for base, op in ((sigs[0], "dersig"), (cts[0], "derct")):
+        nb = len(base) * 8
+        pos = range(nb) if (thorough or op == "dersig") else sorted(set(list(range(0, 8 * 80)) + [r.below(nb) for _ in range(300)]))
+        for bit in pos:
+            mb = bytearray(base); mb[bit // 8] ^= 1 << (bit % 8)
+            diff.append(("%s %s" % (op, hx(bytes(mb))), "der:%s:bitflip" % op[3:]))
+        for v in range(256):
+            diff.append(("%s %s" % (op, hx(base + bytes([v]))), "der:%s:extend1" % op[3:]))
+    run_diff(ctx, diff, impl_exe, model_exe)
+    # ---- phase 2b: API level (sm9_verify_finish / sm9_decrypt): genuine accepted, every mutation refused
+    api = []
+    sa = lambda b: "sigapi %s %s %s %s" % (h64(ksig), hx(idsig), hx(msg), hx(b))
+    ca = lambda b: "ctapi %s %s %s" % (h64(kenc), hx(idenc), hx(b))
+    api.append((sa(sigs[0]), "derapi:sig:genuine", "1")); api.append((sa(sigs[1]), "derapi:sig:genuine", "1"))
+    api.append((ca(cts[0]), "derapi:ct:genuine", "1 " + hx(pts[0]))); api.append((ca(cts[1]), "derapi:ct:genuine", "1 " + hx(pts[1])))
+    for base, mk, nm, full in ((sigs[0], sa, "sig", True), (sigs[1], sa, "sig", False), (cts[0], ca, "ct", True), (cts[1], ca, "ct", False)):
+        for cls, mb in der_mutations(r, base, full_trunc=full):
+            api.append((mk(mb), "derapi:%s:%s" % (nm, cls), None))
+    # complete single-bit neighbourhood + all one-byte extensions of one signature and one ciphertext
+    for base, mk, nm in ((sigs[0], sa, "sig"), (cts[0], ca, "ct")):
+        for bit in range(len(base) * 8):
+            mb = bytearray(base); mb[bit // 8] ^= 1 << (bit % 8)
+            api.append((mk(bytes(mb)), "derapi:%s:bitflip-all" % nm, None))
+        for v in range(256):
+            api.append((mk(base + bytes([v])), "derapi:%s:extend1-all" % nm, None))
+    out, err = core.run_lines(impl_exe, [a[0] for a in api])
+    for (line, cell, exp), a in zip(api, out):
+        ctx.cov["evaluations"] += 1; ctx.count("op:" + line.split(" ")[0])
+        if exp is not None:
+            if a == exp: ctx.cell(cell + ":ok")
+            else: viol(cell, "genuine object not accepted", line, a, exp)
+        else:
+            if a in ("-1", "0"): ctx.cell(cell + ":refused")
+            else: viol(cell, "altered / malleable encoding accepted by the API", line, a, "-1 (refused)")
+    # ---- phase 2c: key objects: round trip, canonical re-encoding, structural mutations refused
+    kd = []
+    for (kind, k), e in zip(keyobjs, keyder_enc):
+        cls = "lead0" if k < 2**248 else "full"
+        if not all(c in "0123456789abcdef" for c in e) or len(e) < 20:
+            viol("key:%s:encode" % kind, "key object not encodable", "keyenc %s %s" % (kind, h64(k)), e, "DER"); continue
+        b = bytes.fromhex(e)
+        kd.append(("keyder %s %s" % (kind, e), "key:%s:roundtrip:%s" % (kind, cls), "rt", b))
+        if k != kvals[2]: continue
+        for mcls, mb in der_mutations(r, b):
+            kd.append(("keyder %s %s" % (kind, hx(mb)), "key:%s:%s" % (kind, mcls), "mut", b))
+    idec = []
+    for (kind, k), e in zip(infos, info_enc):
+        if not all(c in "0123456789abcdef" for c in e) or len(e) < 20:
+            viol("keyinfo:%s:encode" % kind, "encrypted key not encodable", "keyinfo %s %s" % (kind, h64(k)), e, "DER"); continue
+        b = bytes.fromhex(e)
+        cls = "lead0" if k < 2**248 else "full"
+        idec.append(("keyinfodec %s P@ssw0rd %s" % (kind, e), "keyinfo:%s:roundtrip:%s" % (kind, cls), "rt", b))
+        idec.append(("keyinfodec %s wrong-pass %s" % (kind, e), "keyinfo:%s:wrong-password" % kind, "mut", b))
+        if (kind, k) != infos[0] and not thorough: continue
+        muts = der_mutations(r, b)
+        keep = [m for m in muts if not m[0].startswith(("child-", "wrong-tag:child", "nonminimal-len:child", "bitstring", "int-"))]
+        for mcls, mb in keep:
+            idec.append(("keyinfodec %s P@ssw0rd %s" % (kind, hx(mb)), "keyinfo:%s:%s" % (kind, mcls), "mut", b))
+    allk = kd + idec
+    out, err = core.run_lines(impl_exe, [a[0] for a in allk], shards=16)
+    for (line, cell, mode, base), a in zip(allk, out):
+        ctx.cov["evaluations"] += 1; ctx.count("op:" + line.split(" ")[0])
+        f = a.split(" ")
+        if mode == "rt":
+            if f[0] == "1" and int(f[1]) == len(base) and (line.startswith("keyinfodec") or f[2] == base.hex()):
+                ctx.cell(cell + ":ok")
+            else:
+                viol(cell, "the library does not read back its own encoding", line, a, "1 %d <same DER>" % len(base))
+        else:
+            sent = bytes.fromhex(line.split(" ")[-1]) if line.split(" ")[-1] != "-" else b""
+            whole = f[0] == "1" and int(f[1]) == len(sent) and len(sent) != len(base)
+            same = f[0] == "1" and int(f[1]) == len(sent) and len(sent) == len(base) and sent != base
+            wrongpass = "wrong-pass" in line and f[0] == "1"
+            if whole or same or wrongpass or a.startswith("FAULT"):
+                viol(cell, "malformed key encoding accepted as a whole object", line, a, "refused, or only the canonical prefix consumed")
+            else:
+                ctx.cell(cell + (":prefix-only" if f[0] == "1" else ":refused"))
+    ctx.notes.append("DER strictness: %d differential, %d API, %d key cases, %.1fs" % (len(diff), len(api), len(allk), time.time() - t0))
+
+
 def run(ctx):
     ctx.check_proofs()
     model, log = core.build_model("C17")
@@ -455,6 +645,7 @@ def run(ctx):
     run_expected(ctx, gc, exe, "group arithmetic differs from the integer reference")
     run_scheme(ctx, gen_scheme(ctx), exe)
     run_exchange(ctx, exe)
+    run_der(ctx, exe, model)
     return finish(ctx)
 
 
